@@ -103,5 +103,40 @@ def op_obligations(prop="C03"):
     return obs
 
 
+def float_obligations(prop="C03"):
+    """FLOAT x FLOAT operators and the mixed INT/FLOAT comparisons the type checker admits (with a diagnostic); mixed
+    ARITHMETIC is rejected by the type checker ("Arithmetic expects numeric types ...": Type checking failed) and has no obligation."""
+    obs = []
+    fns = lambda op: ["eval_prefix_op[float %s]" % op, "eval_expression[dispatch, AST_FLOAT / AST_NUMBER leaves]"]
+    for op in ["ADD", "SUB", "MUL", "DIV", "NEG", "EQ", "NE", "LT", "LE", "GT", "GE"]:
+        d = {"VERIF_EOP": EOP[op], "VERIF_MIX": 0}
+        if op == "DIV":
+            d["VERIF_DOM"] = DOM["DEFINED"]          # every divisor except +-0.0
+        obs.append(base(prop, "%s.float.%s" % (prop, op), "h_fop", d, functions=fns(op), must_have=[r"C03\.float %s" % op, r"COVER"]))
+        if op == "DIV":
+            # divisor +-0.0: C (and the compiled program) yields +-inf / NaN and goes on; no fault
+            obs.append(base(prop, "%s.float.DIV.zero" % prop, "h_fop", dict(d, VERIF_DOM=DOM["ZERO"]), functions=fns(op),
+                            must_have=[r"C03\.float DIV", r"COVER"]))
+    for mix, tag in ((1, "if"), (2, "fi")):
+        for op in ["EQ", "NE", "LT", "LE", "GT", "GE"]:
+            obs.append(base(prop, "%s.mixed.%s.%s" % (prop, tag, op), "h_fop", {"VERIF_EOP": EOP[op], "VERIF_MIX": mix}, functions=fns(op),
+                            must_have=[r"C03\.float %s" % op, r"COVER"]))
+    return obs
+
+
+def slice_obligations(prop="C03"):
+    obs = []
+    for kind, ak in (("dyn", 2), ("array", 1)):
+        for dom, sl in (("", 1), (".wrap", 2)):
+            o = base(prop, "%s.slice.%s.int%s" % (prop, kind, dom), "h_slice", {"VERIF_AK": ak, "VERIF_SL": sl, "VERIF_SLICE_CAP": 5},
+                     functions=["builtin_array_slice[%s]" % ("VAL_DYN_ARRAY" if ak == 2 else "VAL_ARRAY")], unwind=8,
+                     must_have=[r"C03\.slice result length", r"COVER"], witness=None,
+                     strength="B(source capacity <= 5 elements; start, length: full int64%s)" % (", wrapping part of the plane" if sl == 2 else ", non-wrapping part of the plane"))
+            if sl == 2:
+                o["checks"] = NO_SOVF       # `start + length` wraps there (the generated C is built with -fwrapv; nanoc itself at -O0)
+            obs.append(o)
+    return obs
+
+
 def obligations(repo):
-    return op_obligations()
+    return op_obligations() + float_obligations() + slice_obligations()
